@@ -133,6 +133,33 @@ func (vc *VC) buildQuery(o *Obl) (string, error) {
 		sb.WriteString(ax)
 		sb.WriteString("\n")
 	}
+	// the entry heap is closed: what it stores was allocated at entry
+	for _, n := range vc.declO {
+		for key, hs := range w.heapSort {
+			if n != heapSym(key, "0") {
+				continue
+			}
+			gt := w.heapGoT[key]
+			if gt == nil {
+				continue
+			}
+			_, vs, isArr := hs.ArrParts()
+			if !isArr {
+				continue
+			}
+			al0, alA0 := heapSym(alKey, "0"), heapSym(alAKey, "0")
+			switch {
+			case strings.HasPrefix(key, "F:") && vs == SSlice:
+				if _, ok := vc.decl[alA0]; ok {
+					fmt.Fprintf(&sb, "(assert (forall ((r Int)) (! (and (or (= (sl.arr (select %s r)) 0) (select %s (sl.arr (select %s r)))) (>= (sl.arr (select %s r)) 0) (<= 0 (sl.off (select %s r))) (<= 0 (sl.len (select %s r))) (<= (sl.len (select %s r)) (sl.cap (select %s r))) (=> (= (sl.arr (select %s r)) 0) (and (= (sl.len (select %s r)) 0) (= (sl.cap (select %s r)) 0)))) :pattern ((select %s r)))))\n", n, alA0, n, n, n, n, n, n, n, n, n, n)
+				}
+			case strings.HasPrefix(key, "F:") && vs == SInt && isPtrLike(gt):
+				if _, ok := vc.decl[al0]; ok {
+					fmt.Fprintf(&sb, "(assert (forall ((r Int)) (! (or (= (select %s r) 0) (select %s (select %s r))) :pattern ((select %s r)))))\n", n, al0, n, n)
+				}
+			}
+		}
+	}
 	if vc.trig["strext"] {
 		sb.WriteString("(assert (forall ((u SV) (v SV)) (! (=> (and (= (svlen u) (svlen v)) (forall ((i Int)) (=> (and (<= 0 i) (< i (svlen u))) (= (svbyte u i) (svbyte v i))))) (= u v)) :pattern ((svlen u) (svlen v)))))\n")
 	}
